@@ -57,12 +57,22 @@ THEOREMS = [
     "MysticVerif.C10.gradp_spec_fin",
     "MysticVerif.C10.gradp_spec_fallback",
     "MysticVerif.C10.gradp_fallback_witness",
+    # deepening (1b): Collapse* conditions as termination conditions
+    "MysticVerif.C10.collapse_at_spec",
+    "MysticVerif.C10.collapse_as_spec",
+    "MysticVerif.C10.collapse_report_iff",
+    "MysticVerif.C10.collapse_guard",
+    # deepening (2)/(3): conditions as dict keys, keys of state()
+    "MysticVerif.C10.keyEq_refl",
+    "MysticVerif.C10.keyEq_ignores_class",
+    "MysticVerif.C10.keyEq_prim",
+    "MysticVerif.C10.state_keys_spec",
 ]
 
 INF = float("inf")
 WARN = "Warning: Invalid termination condition (nPop < 2)"
 KINDS = ["vtr", "cog", "ncog", "crt", "solimp", "nct", "vtrcog", "popspread", "gradnorm",
-         "evallimits", "timelimits", "interrupt", "gradp", "gradp"]
+         "evallimits", "timelimits", "interrupt", "gradp", "gradp", "cat", "cas"]
 NAN = float("nan")
 EPS = 2.0 ** -26          # mystic._scipy060optimize._epsilon (checked against the module at import of mystic)
 
@@ -214,6 +224,30 @@ def gen_view(rng, regime):
             v["trial"][rng.randrange(rows)].pop()                       # ragged trial population
         else:
             v["trial"] = [r[:-1] for r in v["trial"]]                   # len(trial) = len(best) - 1 >= 2
+    # the step monitor's parameter history (read by the Collapse* conditions): usually as long as the energy history
+    lg = len(v["hist"])
+    ns = lg if rng.random() < 0.75 else rng.choice([0, 1, max(lg - 1, 0), lg + 1, 3])
+    sdim = dim if rng.random() < 0.9 else rng.choice([1, 2, 3])
+    cols = []
+    for _ in range(sdim):
+        c0 = gen_value(rng, regime)
+        style = rng.choice(["const", "const", "settle", "drift", "random", "pair"])
+        if style == "pair" and cols:
+            off = rng.choice([0.0, 0.0, 0.125, 2.0 ** -20])
+            cols.append([x + off * rng.choice([1, 1, 1, 0]) for x in cols[-1]])
+        elif style == "const":
+            cols.append([c0] * ns)
+        elif style == "settle":
+            k = rng.randint(0, ns)
+            cols.append([c0 + 1.0 + i for i in range(k)] + [c0] * (ns - k))
+        elif style == "drift":
+            d = rng.choice([2.0 ** -20, 2.0 ** -10, 0.125])
+            cols.append([c0 + d * rng.randint(-1, 1) for _ in range(ns)])
+        else:
+            cols.append([gen_value(rng, regime) for _ in range(ns)])
+    v["steps"] = [[cols[j][i] for j in range(sdim)] for i in range(ns)]
+    if ns >= 2 and sdim >= 2 and rng.random() < 0.03:
+        v["steps"][rng.randrange(ns)].pop()                              # ragged monitor
     # the gradient: supplied by the solver, or (as for every mystic solver) absent -> approx_fprime of the RAW cost
     v["gradnone"] = rng.random() < 0.45
     v["gradattr"] = rng.choice(["absent", "none", "lastnone"])
@@ -250,7 +284,10 @@ def make_solver(v):
     s.generations = v["gens"]
     s._fcalls = [v["fcalls"]]
     s._EARLYEXIT = v["early"]
-    s._stepmon = None
+    from mystic.monitors import Monitor
+    s._stepmon = Monitor()
+    s._stepmon._x = [list(r) for r in v.get("steps", [])]
+    s._stepmon._y = [0.0] * len(s._stepmon._x)
     return s
 
 
@@ -379,6 +416,57 @@ def gen_prim(rng, v, kind=None):
     if kind == "gradnorm":
         gr = [abs(x) for x in v["grad"] if x == x]
         return ("gradnorm", pick_tol(rng, max(gr) if gr else None))
+    if kind in ("cat", "cas"):
+        steps = v.get("steps", [])
+        sdim = len(steps[0]) if steps else 0
+        g = rng.choice([0, 1, 2, 2, max(lg - 2, 0), max(lg - 1, 0), max(lg - 1, 0), lg, lg + 1, len(steps), -1])
+        win = steps[-g:] if steps else []
+        k = rng.random()
+        if k < 0.5:
+            mask = None
+        elif k < 0.72:
+            mask = {"set": sorted(set(rng.randint(-1, max(sdim, 1)) for _ in range(rng.randint(0, 2))))}
+        elif k < 0.86 and kind == "cas":
+            mask = {"set": [[rng.randrange(max(sdim, 1)), rng.randrange(max(sdim, 1))] for _ in range(rng.randint(1, 2))]
+                    + ([rng.randrange(max(sdim, 1))] if rng.random() < 0.3 else [])}
+        elif k < 0.93:
+            mask = {"set": [0, [0, 1, 2]] if kind == "cas" else [[0, 1]]}    # bad element: ValueError
+        else:
+            mask = {"list": [0]}                                              # not a set: TypeError
+        rect = bool(win) and all(len(r) == len(win[0]) for r in win) and len(win[0]) > 0 and \
+            all(_finite(*r) for r in win)
+        if kind == "cat":
+            tk = rng.random()
+            if tk < 0.45 or not rect:
+                tgt = None
+            elif tk < 0.7:
+                tgt = rng.choice([win[-1][rng.randrange(len(win[0]))], 0.0, gen_value(rng, "dyadic")])
+            else:
+                tgt = [r_ + rng.choice([0.0, 0.0, 0.125]) for r_ in win[-1]]
+                if rng.random() < 0.1:
+                    tgt = tgt[:-1] if len(tgt) > 1 else tgt + [0.0]
+            q = None
+            if rect:
+                i = rng.randrange(len(win[0]))
+                col = [r[i] for r in win]
+                if tgt is None:
+                    q = max(col) - min(col)
+                else:
+                    t = tgt if not isinstance(tgt, list) else (tgt[i] if i < len(tgt) else tgt[0])
+                    q = max(abs(x - t) for x in col)
+            tol = pick_tol(rng, q)
+            if rng.random() < 0.1:
+                tol = [tol, pick_tol(rng, q)]
+            return ("cat", tgt, tol, g, mask)
+        q = None
+        if rect and len(win[0]) >= 2:
+            i, j = rng.sample(range(len(win[0])), 2)
+            d = [abs(r[i] - r[j]) for r in win]
+            off = rng.random() < 0.4
+            q = (max(d) - min(d)) if off else max(d)
+        else:
+            off = rng.random() < 0.4
+        return ("cas", off, pick_tol(rng, q), g, mask)
     if kind == "gradp":
         p = rng.choice([0, 0.0, 1, 1.0, 2, 2.0, 2, 3, 4.0, 0.5, 1.5, 2.5, 7, -1.0, -2.0, 100.0, 1e-3, INF, INF, -INF, NAN])
         g = eff_grad(v)
@@ -467,10 +555,26 @@ def gradp_class(g, p):
     return "toleranced"
 
 
+_NPSET = [False]     # settings handed to the factories as numpy scalars (docs then read `np.float64(1.0)`)
+
+
+def _np(x):
+    import numpy
+    if not _NPSET[0] or isinstance(x, bool) or x is None:
+        return x
+    if isinstance(x, float):
+        return numpy.float64(x)
+    if isinstance(x, int):
+        return numpy.int64(x)
+    return x
+
+
 def build_prim(spec, clock):
     """call the real factory (TimeLimits under the fake clock reading `start`)"""
     from mystic import termination as T
     k = spec[0]
+    if _NPSET[0] and k not in ("cat", "cas", "timelimits", "interrupt"):
+        spec = tuple([spec[0]] + [_np(x) for x in spec[1:]])
     if k == "vtr":
         return T.VTR(spec[1], spec[2])
     if k == "cog":
@@ -491,12 +595,34 @@ def build_prim(spec, clock):
         return T.GradientNormTolerance(spec[1])
     if k == "gradp":
         return T.GradientNormTolerance(spec[1], spec[2])
+    if k == "cat":
+        return T.CollapseAt(target=spec[1], tolerance=spec[2], generations=spec[3], mask=mask_py(spec[4]))
+    if k == "cas":
+        return T.CollapseAs(offset=spec[1], tolerance=spec[2], generations=spec[3], mask=mask_py(spec[4]))
     if k == "evallimits":
         return T.EvaluationLimits(spec[1], spec[2])
     if k == "timelimits":
         clock.t = list(spec[3])
         return T.TimeLimits(spec[1], spec[2])
     return T.SolverInterrupt()
+
+
+def mask_py(m):
+    """the python `mask` argument of a Collapse* condition from its JSON-friendly description"""
+    if m is None:
+        return None
+    if "list" in m:
+        return list(m["list"])
+    return set(tuple(e) if isinstance(e, (list, tuple)) else e for e in m["set"])
+
+
+def mask_sexp(m):
+    if m is None:
+        return "none"
+    if "list" in m:
+        return "other"
+    return "(set (%s))" % " ".join(("(q %s)" % " ".join(str(int(i)) for i in e)) if isinstance(e, (list, tuple)) else str(int(e))
+                                   for e in m["set"])
 
 
 def oi(g):
@@ -518,6 +644,14 @@ def norm_sexp(p):
 
 def prim_sexp(spec, oid, did):
     k = spec[0]
+    if k == "cat":
+        tgt = spec[1]
+        ts = "none" if tgt is None else ("(v %s)" % fl(tgt) if isinstance(tgt, (list, tuple)) else "(s %s)" % f2b(tgt))
+        tols = spec[2] if isinstance(spec[2], (list, tuple)) else [spec[2]]
+        return "(p %d %d collapseAt %s %s %d %s)" % (oid, did, ts, fl(tols), spec[3], mask_sexp(spec[4]))
+    if k == "cas":
+        return "(p %d %d collapseAs %s %s %d %s)" % (oid, did, "true" if spec[1] else "false", f2b(spec[2]), spec[3],
+                                                     mask_sexp(spec[4]))
     if k == "gradp" or (k == "gradnorm" and _GRADNONE[0]):
         body = "gradnormP %s %s" % (f2b(spec[1]), norm_sexp(spec[2] if k == "gradp" else INF))
         return "(p %d %d %s)" % (oid, did, body)
@@ -556,6 +690,8 @@ def gen_expr(rng, nprims, depth):
     if n == 0 and rng.random() < 0.5:
         n = 2
     es = [gen_expr(rng, nprims, depth - 1) for _ in range(n)]
+    if n >= 2 and rng.random() < 0.10:
+        es[1] = es[0]                       # the same member twice (the same subtree: equal keys of the same class)
     if n >= 2 and rng.random() < 0.08:
         # sibling tuples with equal members but different classes (dict key collision)
         a, b = ("p", rng.randrange(nprims)), ("p", rng.randrange(nprims))
@@ -563,6 +699,47 @@ def gen_expr(rng, nprims, depth):
         rng.shuffle(pair)
         es[0], es[1] = pair
     return (op, es)
+
+
+def gen_expr2(rng, e, nprims):
+    """a second expression over the same primitive objects: the same tree, the same tree under other classes (equal as
+    tuples!), with one primitive replaced, a member dropped / repeated, or an unrelated tree"""
+    k = rng.random()
+    if k < 0.15:
+        return e
+
+    def reclass(x, deep):
+        if x[0] == "p":
+            return x
+        if x[0] == "when":
+            return (rng.choice(["and", "or"]), [reclass(x[1], deep)]) if rng.random() < 0.5 else ("when", reclass(x[1], deep))
+        nm = rng.choice(["and", "or"]) if (deep or rng.random() < 0.7) else x[0]
+        return (nm, [reclass(y, deep) if deep else y for y in x[1]])
+    if k < 0.5:
+        return reclass(e, rng.random() < 0.5)
+
+    def mutate(x):
+        if x[0] == "p":
+            return ("p", rng.randrange(nprims))
+        if x[0] == "when":
+            return ("when", mutate(x[1]))
+        ys = list(x[1])
+        if not ys:
+            return (x[0], [("p", rng.randrange(nprims))])
+        j = rng.randrange(len(ys))
+        c = rng.random()
+        if c < 0.4:
+            ys[j] = mutate(ys[j])
+        elif c < 0.6:
+            ys.pop(j)
+        elif c < 0.8:
+            ys.insert(j, ys[j])
+        else:
+            ys.reverse()
+        return (x[0], ys)
+    if k < 0.85:
+        return mutate(e)
+    return gen_expr(rng, nprims, rng.choice([0, 1, 2]))
 
 
 def expr_sexp(e, specs, dids):
@@ -602,6 +779,15 @@ def struct_str(c, objs):
     return "?"
 
 
+def struct_shape(c):
+    """class names and nesting of a condition (primitives as their doc)"""
+    from mystic import termination as T
+    if isinstance(c, tuple):
+        nm = "or" if isinstance(c, T.Or) else ("and" if isinstance(c, T.And) else "when")
+        return (nm,) + tuple(struct_shape(m) for m in c)
+    return c.__doc__
+
+
 def exc_enum(exc):
     if isinstance(exc, IndexError):
         return "index"
@@ -631,6 +817,21 @@ def pout(r):
     return "sat" if x else "unsat"
 
 
+def payload_of(r, doc):
+    """what a satisfied Collapse* condition reports after ' at ' as a sorted list of index lists ('n': nothing / not a
+    Collapse* report; '?..': unreadable)"""
+    import numpy
+    if r[0] != "ok" or not isinstance(r[1], str) or not r[1].startswith(doc + " at "):
+        return "n"
+    text = r[1][len(doc) + 4:]
+    try:
+        val = eval(text, {"np": numpy, "numpy": numpy})
+        out = sorted([int(i) for i in e] if isinstance(e, tuple) else [int(e)] for e in val)
+    except Exception:      # noqa
+        return "?" + text
+    return out if out else "n"
+
+
 def info_atoms(s, docs):
     """info string -> sorted atom tokens ('d<i>', 'warn', or '?<text>' for anything unknown)"""
     if not isinstance(s, str):
@@ -644,7 +845,9 @@ def info_atoms(s, docs):
         elif piece in docs:
             out.add("d%d" % docs[piece])
         else:
-            out.add("?" + piece)
+            # a Collapse* condition reports `doc + ' at ' + str(collapsed)` (the report itself is compared per primitive)
+            ds_ = [d for d in docs if piece.startswith(d + " at ")]
+            out.add(("d%d" % docs[ds_[0]]) if ds_ else ("?" + piece))
     ds = sorted([a for a in out if a[0] == "d"], key=lambda a: int(a[1:]))
     return ds + sorted(a for a in out if a[0] != "d")
 
@@ -665,7 +868,8 @@ def run_case(rng, regime=None):
     rclock = None if same_clock else [dyadic(rng, 0, 32, 4) for _ in range(3)]
     auxp = rng.choice([None, 0, 1, 2, 2.0, 3, 4, 0.5, 1.5, 2.5, 7, -1.0, -2.0, 100.0, INF, -INF, NAN])
     case = execute({"regime": regime, "view": v, "specs": specs, "expr": e, "rclock": rclock,
-                    "auxp": auxp, "auxw": rng.choice(["grad", "eff"])})
+                    "auxp": auxp, "auxw": rng.choice(["grad", "eff"]), "expr2": gen_expr2(rng, e, nprims),
+                    "npset": rng.random() < 0.15})
     case["toltags"] = list(_TOLTAGS)
     return case
 
@@ -674,6 +878,7 @@ def execute(case):
     from mystic import termination as T
     v = case["view"]; specs = [tuple(s) for s in case["specs"]]; e = case["expr"]
     obs = {}
+    _NPSET[0] = bool(case.get("npset"))
     with Clock() as clock, warnings.catch_warnings():
         warnings.simplefilter("ignore")
         objs = [build_prim(s, clock) for s in specs]
@@ -714,12 +919,22 @@ def execute(case):
         obs["built"] = struct_str(cond, objs)
         order = expr_prims(e)
         obs["prims"] = [pout(call(objs[i], solver)) for i in order]
+        obs["pay"] = [payload_of(call(objs[i], solver, True), objs[i].__doc__) for i in order]
         obs["rb"] = [("raise:" + type(rebuilt[i]).__name__) if isinstance(rebuilt[i], Exception)
                      else pout(call(rebuilt[i], solver)) for i in order]
-        obs["rbdoc"] = [(not isinstance(rebuilt[i], Exception)) and rebuilt[i].__doc__ == objs[i].__doc__ for i in order]
+        def same_doc(a, b):
+            # the same factory and equal keyword settings (a set-valued mask may be written in another order)
+            if a.__doc__ == b.__doc__:
+                return True
+            try:
+                ka, kb = a.__doc__.split(" with ", 1)[0], b.__doc__.split(" with ", 1)[0]
+                return ka == kb and list(T.state(a).values()) == list(T.state(b).values())
+            except Exception:      # noqa
+                return False
+        obs["rbdoc"] = [(not isinstance(rebuilt[i], Exception)) and same_doc(rebuilt[i], objs[i]) for i in order]
         obs["rb2"] = [("raise:" + type(rebuilt2[i]).__name__) if isinstance(rebuilt2[i], Exception)
                       else pout(call(rebuilt2[i], solver)) for i in order]
-        obs["rb2doc"] = [(not isinstance(rebuilt2[i], Exception)) and rebuilt2[i].__doc__ == objs[i].__doc__ for i in order]
+        obs["rb2doc"] = [(not isinstance(rebuilt2[i], Exception)) and same_doc(rebuilt2[i], objs[i]) for i in order]
         rb = call(cond, solver)
         obs["b"] = ("err-" + rb[1]) if rb[0] == "err" else bool(rb[1])
         obs["btype"] = type(rb[1]).__name__ if rb[0] == "ok" else None
@@ -742,23 +957,52 @@ def execute(case):
         try:
             st = T.state(cond)
             obs["state_keys_ok"] = set(st.keys()) == set(objs[i].__doc__ for i in order)
+            obs["skeys"] = [docs.get(k_, -1) for k_ in st.keys()]
         except Exception as exc:   # noqa
             obs["state_keys_ok"] = "raise:" + type(exc).__name__
+            obs["skeys"] = "raise:" + type(exc).__name__
+        # the whole tree rebuilt: type(c)(*members rebuilt), primitives from type + state
+        def rebuild_tree(c):
+            if isinstance(c, tuple):
+                return T.type(c)(*[rebuild_tree(m) for m in c])
+            return T.type(c)(**T.state(c)[c.__doc__])
+        clock.t = list(v["clock"])
+        has_tl = any(specs[i][0] == "timelimits" for i in order)
+        try:
+            rt = rebuild_tree(cond)
+            r2 = call(rt, solver)
+            r2i = call(rt, solver, True)
+            docs2 = dict(docs)
+            obs["tree_rb"] = {"b": ("err-" + r2[1]) if r2[0] == "err" else bool(r2[1]),
+                              "info": ("err-" + r2i[1]) if r2i[0] == "err" else info_atoms(r2i[1], docs2),
+                              "built": struct_shape(rt) == struct_shape(cond), "skip": has_tl}
+        except Exception as exc:   # noqa
+            obs["tree_rb"] = {"raise": type(exc).__name__, "skip": has_tl}
+        # a second condition built from the same primitive objects: equality / hash / use as a dict key
+        e2 = case.get("expr2")
+        if e2 is not None:
+            cond2 = expr_build(e2, objs)
+            eq = (cond == cond2)
+            obs["eq"] = {"eq": bool(eq), "hash": (hash(cond) == hash(cond2)) if isinstance(cond, tuple) and isinstance(cond2, tuple) else None,
+                         "dict": len({cond: 1, cond2: 2})}
         obs["docs"] = {d: i for d, i in docs.items()}
+        case = dict(case); case["_docs_in_order"] = [o.__doc__ for o in objs]
+        _GRADNONE[0] = bool(v.get("gradnone"))
         aux = execute_aux(case, v, obs)
+        case.pop("_docs_in_order")
     rc = case["rclock"] if case["rclock"] is not None else [0.0, 0.0, 0.0]
     # when the clock at rebuilding is "the same", each TimeLimits restarts at its own start: the model takes
     # rclock for all three timers, so send per-primitive starts by giving the spec's start (see request below)
     _GRADNONE[0] = bool(v.get("gradnone"))
     cost = v.get("cost")
     line = ("C10 run (hist %s) (pop %s) (pope %s) (best %s) (trial %s) (trial2d %s) (grad %s) (gens %d) (fcalls %d) "
-            "(early %s) (clock %s) (rclock %s) (sameclock %s) (gradnone %s) (cost %s) (expr %s)") % (
+            "(early %s) (clock %s) (rclock %s) (sameclock %s) (gradnone %s) (cost %s) (steps %s) (expr %s)") % (
         fl(v["hist"]), fll(v["pop"]), fl(v["pope"]), fl(v["best"]), fll(v["trial"]),
         "true" if v["trial2d"] else "false", fl(v["grad"]), v["gens"], v["fcalls"],
         "true" if v["early"] else "false", fl(v["clock"]), fl(rc),
         "true" if case["rclock"] is None else "false", "true" if v.get("gradnone") else "false",
         "none" if cost is None else "(%s %s %s)" % (f2b(cost[0]), fl(cost[1]), fl(cost[2])),
-        expr_sexp(e, specs, dids))
+        fll(v.get("steps", [])), expr_sexp(e, specs, dids))
     case = dict(case); case["request"] = line; case["impl"] = obs; case["aux"] = aux
     return case
 
@@ -787,6 +1031,11 @@ def execute_aux(case, v, obs):
             a["fcalls_after"] = solver2._fcalls[0]
         obs["aux"]["approx"] = a
         aux.append(("approx", "C10 approx (best %s) (cost %s)" % (fl(v["best"]), cost_sexp(v["cost"]))))
+    if case.get("expr2") is not None and "eq" in obs:
+        specs_ = [tuple(s_) for s_ in case["specs"]]
+        dids_ = [obs["docs"][d_] for d_ in case["_docs_in_order"]]
+        aux.append(("eq", "C10 eq (a %s) (b %s)" % (expr_sexp(case["expr"], specs_, dids_),
+                                                     expr_sexp(case["expr2"], specs_, dids_))))
     auxp = case.get("auxp")
     if auxp is not None:
         from mystic.math.distance import Lnorm
@@ -826,6 +1075,16 @@ def compare_aux(case, replies):
                 if [[f2b(x) for x in row] for row in a["via_term"]] != [[f2b(x) for x in row] for row in mpts]:
                     diffs.append(("approx-via-termination", "GradientNormTolerance evaluated the raw cost at %r, the model says %r"
                                   % (a["via_term"], mpts)))
+        elif stream == "eq":
+            a = case["impl"]["eq"]
+            tags.append("aux:eq:%s" % a["eq"])
+            if r[0] != "ok" or (r[1]["eq"] == "true") != a["eq"]:
+                diffs.append((stream, "cond == cond2 is %s, model replies %r (%s vs %s)" % (
+                    a["eq"], rep, show_expr(case["expr"]), show_expr(case["expr2"]))))
+            if a["eq"] and a["hash"] is False:
+                diffs.append((stream, "equal conditions with different hashes"))
+            if a["dict"] != (1 if a["eq"] else 2):
+                diffs.append((stream, "as dict keys: %d entries for eq=%s" % (a["dict"], a["eq"])))
         elif stream == "lnorm":
             a = case["impl"]["aux"]["lnorm"]
             tags.append("aux:lnorm:%s:%s" % (a["class"], "err" if isinstance(a["value"], str) else "value"))
@@ -1022,7 +1281,9 @@ def spec_expected(spec, v):
             if not g:
                 return True, mech
             lhs = sum(abs(Fraction(x)) ** int(p) for x in g); rhs = Fraction(tol) ** int(p)
-            if lhs != rhs and abs(lhs - rhs) <= Fraction(1, 10 ** 12) * max(lhs, rhs):
+            # an exact tie is decided by the code only when 1/p is exact (p a power of two): s**(1./3) is rounded
+            tie_ok = lhs != rhs or (int(p) & (int(p) - 1)) == 0
+            if abs(lhs - rhs) <= Fraction(1, 10 ** 12) * max(lhs, rhs) and not (lhs == rhs and tie_ok):
                 raise Skip("rounding")
             return lhs <= rhs, mech
         q = gradp_value([abs(x) for x in g], p)
@@ -1040,6 +1301,8 @@ def spec_expected(spec, v):
         if any(x != x for x in g):
             return False, False
         return all(le_decide([(lambda x: (lambda N: (abs(nz(N, x)), nz(N, spec[1]))))(x)]) for x in g), False
+    if k in ("cat", "cas"):
+        return bool(collapse_expected(spec, v)), False
     if k == "evallimits":
         gl, el = spec[1], spec[2]
         return ((el is not None and v["fcalls"] >= el) or (gl is not None and v["gens"] >= gl)), False
@@ -1047,6 +1310,63 @@ def spec_expected(spec, v):
         i = {None: 0, True: 1, False: 2}[spec[2]]
         return le_decide([lambda N: (abs(nz(N, spec[1])), nz(N, v["clock"][i]) - nz(N, spec[3][i]))]), False
     return bool(v["early"]), False
+
+
+def collapse_expected(spec, v):
+    """the documented meaning of CollapseAt / CollapseAs by this harness's own exact computation: the sorted list of
+    collapsed indices / index pairs over the last `generations` monitor entries ([] when the energy history is not longer
+    than `generations`); Skip on malformed input (the condition raises) or settings without a documented reading"""
+    k = spec[0]
+    lg = len(v["hist"])
+    g = spec[3]
+    if lg == 0 or lg <= g:
+        return []
+    steps = v.get("steps", [])
+    win = steps[-g:]
+    if not win or not win[0] or any(len(r) != len(win[0]) for r in win) or not all(_finite(*r) for r in win):
+        raise Skip("malformed")
+    m = spec[4]
+    if m is not None and "list" in m:
+        raise Skip("malformed")
+    tol = spec[2]
+    if isinstance(tol, (list, tuple)) or tol != tol:
+        raise Skip("list-tolerance")
+    n = len(win[0])
+    F = Fraction
+
+    def le(x):            # exact `x <= tol`
+        return True if tol == INF else (False if tol == -INF else x <= F(tol))
+    if k == "cat":
+        tgt = spec[1]
+        if m is not None and any(isinstance(e, (list, tuple)) for e in m["set"]):
+            raise Skip("malformed")
+        if isinstance(tgt, (list, tuple)) and len(tgt) != n:
+            raise Skip("target-length")
+        if tgt is not None and not _finite(*(tgt if isinstance(tgt, (list, tuple)) else [tgt])):
+            raise Skip("nonfinite")
+        out = []
+        for i in range(n):
+            col = [F(r[i]) for r in win]
+            if tgt is None:
+                ch = max(col) - min(col)
+            else:
+                t = F(tgt[i]) if isinstance(tgt, (list, tuple)) else F(tgt)
+                ch = max(abs(x - t) for x in col)
+            if le(ch) and not (m is not None and i in m["set"]):
+                out.append([i])
+        return out
+    if m is not None and any(isinstance(e, (list, tuple)) and len(e) != 2 for e in m["set"]):
+        raise Skip("malformed")
+    singles = set(e for e in (m["set"] if m else []) if not isinstance(e, (list, tuple)))
+    pairs = set(tuple(e) for e in (m["set"] if m else []) if isinstance(e, (list, tuple)))
+    out = []
+    for i in range(n):
+        for j in range(i + 1, n):
+            d = [abs(F(r[i]) - F(r[j])) for r in win]
+            ch = (max(d) - min(d)) if spec[1] else max(d)
+            if le(ch) and not (i in singles or j in singles or (i, j) in pairs or (j, i) in pairs):
+                out.append([i, j])
+    return out
 
 
 def fp_trouble(g, p):
@@ -1142,6 +1462,22 @@ def unpack_sites(e):
     return found[0]
 
 
+def when_arity(e):
+    """does building `e` produce a When holding != 1 members (When(compound) unpacks the compound's members)?"""
+    found = [False]
+
+    def build(e):
+        if e[0] == "p":
+            return None
+        args = [build(e[1])] if e[0] == "when" else [build(x) for x in e[1]]
+        n = args[0] if (len(args) == 1 and args[0] is not None) else len(args)
+        if e[0] == "when" and n != 1:
+            found[0] = True
+        return n
+    build(e)
+    return found[0]
+
+
 def monitor(case):
     """the property on the implementation's own results; returns list of (class_key, what)"""
     from mystic import termination as T
@@ -1176,6 +1512,19 @@ def monitor(case):
                 key = ("%s/negative-tolerance" % spec[0]) if (neg and verdict[i] and not want) else ("%s/documented-inequality" % spec[0])
             out.append((key, "%r is %s although its documented inequality is %s (history %r)" % (
                 spec, "satisfied" if verdict[i] else "not satisfied", "true" if want else "false", v["hist"][-6:])))
+    # 1b. a satisfied Collapse* condition reports exactly the collapsed indices / pairs
+    for pos, i in enumerate(order):
+        if specs[i][0] not in ("cat", "cas") or obs["prims"][pos].startswith("err-"):
+            continue
+        try:
+            want = collapse_expected(specs[i], v)
+        except Skip:
+            continue
+        got = obs["pay"][pos]
+        hist["mon-collapse-report:%s:%s" % (specs[i][0], "some" if want else "none")] = \
+            hist.get("mon-collapse-report:%s:%s" % (specs[i][0], "some" if want else "none"), 0) + 1
+        if (got if got != "n" else []) != want:
+            out.append(("%s/reported-collapse" % specs[i][0], "%r reports %r, collapsed over the window are %r" % (specs[i], got, want)))
     # 5. rebuilt from type + state behaves identically (TimeLimits: only when rebuilt at the same clock reading)
     for pos, i in enumerate(order):
         if case["rclock"] is not None and specs[i][0] == "timelimits":
@@ -1190,10 +1539,22 @@ def monitor(case):
         return out
     # 2. And = all, Or = any, When = same, on the expression as written
     want = den(e, verdict)
+    _NPSET[0] = bool(case.get("npset"))
     with Clock() as clock:
         objs = [build_prim(s, clock) for s in specs]
         cond = expr_build(e, objs)
     mech = mechanisms(cond)
+    trb = obs.get("tree_rb")
+    if trb is not None and not trb.get("skip") and not raised and not isinstance(obs["b"], str):
+        hist["mon-tree-rebuild:%s" % ("raise" if "raise" in trb else "ok")] = hist.get("mon-tree-rebuild:%s" % ("raise" if "raise" in trb else "ok"), 0) + 1
+        if "raise" in trb:
+            key = "compound/single-compound-argument-unpacked" if (trb["raise"] == "TypeError" and when_arity(e)) \
+                else "rebuild-tree/raises"
+            out.append((key, "type(c)(*members) of %s raises %s: a When built from a compound argument holds %s members"
+                        % (show_expr(e), trb["raise"], "not exactly one")))
+        elif trb["b"] != obs["b"] or trb["info"] != obs["info"] or not trb["built"]:
+            out.append(("compound/sibling-tuple-key-collision" if "collision" in mech else "rebuild-tree/differs", "%s rebuilt member by member (type + state) gives %r / %r, the original %r / %r"
+                        % (show_expr(e), trb["b"], trb["info"], obs["b"], obs["info"])))
     if want != obs["b"]:
         if unpack_sites(e):
             key = "compound/single-compound-argument-unpacked"
@@ -1229,7 +1590,8 @@ def show_expr(e):
     return "%s(%s)" % (e[0].capitalize(), ", ".join(show_expr(x) for x in e[1]))
 
 
-SLIM = ("regime", "view", "specs", "expr", "rclock", "auxp", "auxw", "request", "impl", "model", "aux", "auxmodel")
+SLIM = ("regime", "view", "specs", "expr", "rclock", "auxp", "auxw", "expr2", "npset", "request", "impl", "model", "aux",
+        "auxmodel")
 
 
 # ------------------------------------------------------------------ comparison with the model
@@ -1246,6 +1608,11 @@ def compare(case, rep):
         diffs.append("constructed object: model=%s impl=%s" % (built, o["built"]))
     if list(kv["prims"]) != o["prims"]:
         diffs.append("primitive verdicts: model=%s impl=%s" % (list(kv["prims"]), o["prims"]))
+    mpay = [x if isinstance(x, str) else [[int(t) for t in e] for e in x] for x in kv.get("pay", [])]
+    if mpay != o["pay"]:
+        diffs.append("reported collapse (after ' at '): model=%s impl=%s" % (mpay, o["pay"]))
+    if isinstance(o.get("skeys"), list) and [int(x) for x in kv.get("skeys", [])] != o["skeys"]:
+        diffs.append("keys of state(condition): model=%s impl=%s" % (list(kv.get("skeys", [])), o["skeys"]))
     if list(kv["rb"]) != o["rb"]:
         diffs.append("rebuilt primitive verdicts: model=%s impl=%s" % (list(kv["rb"]), o["rb"]))
     if "raised" in kv:
@@ -1455,6 +1822,59 @@ def fixed_cases():
     return out
 
 
+def state_probes():
+    """settings whose repr must survive the doc-string round trip of state() (`eval` in termination.py's namespace:
+    inf, nan, -inf, numpy scalars written `np.float64(1.0)`, sets of numpy ints) and settings whose repr does not
+    (a timedelta, a numpy array).  Returns (findings, number of probes)."""
+    import numpy, datetime
+    from mystic import termination as T
+    f64, i64 = numpy.float64, numpy.int64
+    probes = [
+        ("VTR(np.float64(0.125), inf)", lambda: T.VTR(f64(0.125), INF)),
+        ("VTR(nan, -inf)", lambda: T.VTR(NAN, -INF)),
+        ("VTR(numpy.inf, numpy.nan)", lambda: T.VTR(numpy.inf, numpy.nan)),
+        ("ChangeOverGeneration(0.0, np.int64(2))", lambda: T.ChangeOverGeneration(0.0, i64(2))),
+        ("NormalizedCostTarget(np.float64(1.0), np.float64(0.5), None)", lambda: T.NormalizedCostTarget(f64(1.0), f64(0.5), None)),
+        ("EvaluationLimits(np.int64(3), inf)", lambda: T.EvaluationLimits(i64(3), INF)),
+        ("TimeLimits(np.float64(5.0), np.True_)", lambda: T.TimeLimits(f64(5.0), numpy.True_)),
+        ("GradientNormTolerance(np.float64(1.0), numpy.inf)", lambda: T.GradientNormTolerance(f64(1.0), numpy.inf)),
+        ("GradientNormTolerance(1.0, -inf)", lambda: T.GradientNormTolerance(1.0, -INF)),
+        ("CollapseAt(mask={np.int64(0)}, generations=1)", lambda: T.CollapseAt(None, 0.0, 1, {i64(0)})),
+        ("CollapseAt(target=(1.0, 1.0, 1.0), generations=1)", lambda: T.CollapseAt((1.0, 1.0, 1.0), 0.0, 1, None)),
+        ("CollapseAt(tolerance=[0.0, 8.0], generations=1)", lambda: T.CollapseAt(None, [0.0, 8.0], 1, set())),
+        ("CollapseAs(mask={(0, 2)}, generations=1)", lambda: T.CollapseAs(False, 0.0, 1, {(0, 2)})),
+        ("TimeLimits(datetime.timedelta(seconds=5))", lambda: T.TimeLimits(datetime.timedelta(seconds=5))),
+        ("CollapseAt(target=numpy.array([1.0, 1.0, 1.0]), generations=1)", lambda: T.CollapseAt(numpy.array([1.0, 1.0, 1.0]), 0.0, 1, None)),
+        ("CollapseAt(tolerance=numpy.array([0.0]), generations=1)", lambda: T.CollapseAt(None, numpy.array([0.0]), 1, None)),
+    ]
+    v = _view([5.0, 1.0, 1.0], grad=[3.0, -4.0], steps=[[9.0, 0.0, 1.0], [1.0, 5.0, 1.0], [1.0, 9.0, 1.0]])
+    findings = []
+    for name, mk in probes:
+        case = {"probe": name}
+        with Clock() as clock, warnings.catch_warnings():
+            warnings.simplefilter("ignore")
+            clock.t = [0.0, 0.0, 0.0]
+            c = mk()
+            try:
+                st = T.state(c)
+                kw = st[c.__doc__]
+                rb = T.type(c)(**kw)
+            except NameError as exc:
+                findings.append(Finding("monitor", "state/setting-repr-not-evaluable",
+                                        "state(%s) raises NameError (%s): the condition cannot report its settings, hence cannot be rebuilt" % (name, exc), case))
+                continue
+            except Exception as exc:     # noqa
+                findings.append(Finding("monitor", "state/raises", "state / rebuild of %s raises %s: %s" % (name, type(exc).__name__, exc), case))
+                continue
+            clock.t = list(v["clock"])
+            solver = make_solver(v)
+            a = (pout(call(c, solver)), payload_of(call(c, solver, True), c.__doc__))
+            b = (pout(call(rb, solver)), payload_of(call(rb, solver, True), rb.__doc__))
+            if a != b:
+                findings.append(Finding("monitor", "rebuild/probe", "%s gives %r, rebuilt from type + state %r" % (name, a, b), case))
+    return findings, len(probes)
+
+
 def run_fixed():
     import numpy
     common.import_mystic()
@@ -1473,7 +1893,8 @@ def run_fixed():
             findings.append(Finding("correspondence", "%s/diverges" % stream, d, slim))
         for key, what in monitor(c):
             findings.append(Finding("monitor", key, what, slim))
-    return findings, len(cases)
+    pf, npf = state_probes()
+    return findings + pf, len(cases) + npf
 
 
 RULE = ("cases: a synthetic solver view (energy history of length 0-12: monotone / plateau / random / leading or all "
@@ -1542,7 +1963,8 @@ def replay(path):
     def tup(e):
         return ("p", e[1]) if e[0] == "p" else (("when", tup(e[1])) if e[0] == "when" else (e[0], [tup(x) for x in e[1]]))
     case = execute({"regime": cs["regime"], "view": cs["view"], "specs": [tuple(s) for s in cs["specs"]],
-                    "expr": tup(cs["expr"]), "rclock": cs["rclock"], "auxp": cs.get("auxp"), "auxw": cs.get("auxw")})
+                    "expr": tup(cs["expr"]), "rclock": cs["rclock"], "auxp": cs.get("auxp"), "auxw": cs.get("auxw"),
+                    "expr2": tup(cs["expr2"]) if cs.get("expr2") is not None else None, "npset": cs.get("npset")})
     reps, areps = drive_cases([case])
     rep = reps[0]
     diffs, kv = compare(case, rep)
